@@ -28,7 +28,8 @@ static int pat_len() {
 }
 static void sym_str(std::string &s) {
   int len = pat_len();
-  for (int i = 0; i < LMAX; i++) { char c = nondet_char(); s._M_local_buf[i] = i < len ? c : (char)0; }
+  // draw exactly len characters: an unused draw would be sliced out of the counterexample and shift the replay inputs
+  for (int i = 0; i < LMAX; i++) { if (i < len) s._M_local_buf[i] = nondet_char(); else s._M_local_buf[i] = 0; }
   s._M_local_buf[LMAX] = 0;
   s._M_string_length = (size_t)len;
 }
@@ -283,4 +284,128 @@ template<int SHAPE> static void type_body() {
 #endif
 extern "C" void harness_c12_rec_type() {
   DISPATCH_BEGIN TYPE_SHAPES DISPATCH_END
+}
+
+// ---- version gates: InterrogateElement::input reading a file of minor format 0..3 ----
+// Reference writer kept here (independent of the code under test): an element record as interrogate 3.<minor> wrote it.
+static void ref_string(std::ostream &out, const std::string &s, char ws) {
+  out << (unsigned long)s.size() << ws;
+  if (s.size() != 0) { for (size_t i = 0; i < s.size(); i++) out.put(s[i]); out << ws; }
+}
+template<int NALT> static void ref_component(std::ostream &out, const InterrogateComponent *a) {
+  ref_string(out, a->_name, ' ');
+  out << (unsigned long)NALT << ' ';
+  for (int i = 0; i < NALT; i++) ref_string(out, a->_alt_names[i], ' ');
+}
+// SHAPE bit0 = one alt name, bits 1..2 = minor version of the file
+template<int SHAPE> static void element_gate_body() {
+  const int MINOR = SHAPE >> 1;
+  as_file_version(MINOR);
+  InterrogateElement *a = new InterrogateElement, *b = new InterrogateElement;
+  fill_component<SHAPE & 1>(a);
+  fill_element_scalars(a);
+  sym_str(a->_scoped_name); sym_str(a->_comment);
+  int follow = nondet_int();
+  std::ostream *out = vs_ostream_new();
+  ref_component<SHAPE & 1>(*out, a);
+  *out << a->_flags << ' ' << a->_type << ' ' << a->_getter << ' ' << a->_setter << ' ';
+  if (MINOR >= 1) *out << a->_has_function << ' ' << a->_clear_function << ' ';
+  if (MINOR >= 2) *out << a->_del_function << ' ' << a->_length_function << ' ';
+  if (MINOR >= 3) *out << a->_insert_function << ' ' << a->_getkey_function << ' ';
+  ref_string(*out, a->_scoped_name, ' ');
+  ref_string(*out, a->_comment, '\n');
+  *out << follow << ' ';
+  std::istream *in = vs_istream_of(out);
+  b->input(*in);
+  ASSERT(!in->fail(), "C12 reading an element of an older 3.x format does not fail");
+  int f2 = 0;
+  *in >> f2;
+  ASSERT(!in->fail() && f2 == follow, "C12 the value following an older-format element is read back intact");
+  check_component<SHAPE & 1>(a, b);
+  SAME(_flags, "element flags"); SAME(_type, "element type"); SAME(_getter, "element getter"); SAME(_setter, "element setter");
+  SAME(_scoped_name, "element scoped name"); SAME(_comment, "element comment");
+  if (MINOR >= 1) { SAME(_has_function, "element has_function (3.1+)"); SAME(_clear_function, "element clear_function (3.1+)"); }
+  else ASSERT(b->_has_function == 0 && b->_clear_function == 0, "C12 fields absent from a 3.0 file keep the constructor default");
+  if (MINOR >= 2) { SAME(_del_function, "element del_function (3.2+)"); SAME(_length_function, "element length_function (3.2+)"); }
+  else ASSERT(b->_del_function == 0 && b->_length_function == 0, "C12 fields absent from a 3.0/3.1 file keep the constructor default");
+  if (MINOR >= 3) { SAME(_insert_function, "element insert_function (3.3)"); SAME(_getkey_function, "element getkey_function (3.3)"); }
+  else ASSERT(b->_insert_function == 0 && b->_getkey_function == 0, "C12 fields absent from a 3.0-3.2 file keep the constructor default");
+  if (MINOR == 3) {
+    // the current format: the real writer must produce exactly what the reference writer produced
+    std::ostream *out2 = vs_ostream_new();
+    a->output(*out2);
+    *out2 << follow << ' ';
+    ASSERT(vs_same_output(out, out2), "C12 InterrogateElement::output writes the 3.3 format of the reference writer");
+  }
+  WITNESS();
+}
+extern "C" void harness_c12_element_gates() {
+  DISPATCH_BEGIN SHAPE_CASE(element_gate_body, 0) SHAPE_CASE(element_gate_body, 3) SHAPE_CASE(element_gate_body, 4)
+  SHAPE_CASE(element_gate_body, 5) SHAPE_CASE(element_gate_body, 6) SHAPE_CASE(element_gate_body, 7) DISPATCH_END
+}
+
+// ---- truncation: every proper prefix of a valid record must be rejected (stream failed) without a crash ----
+// The record is followed by one more integer, as every record in a database file is (the next index or the next
+// section count); the cut position is symbolic (dispatched to concrete positions) and removes at least that integer.
+// Integers are single digits and string bytes are letters so that token index == byte index in the native replay.
+#ifdef VERIF_NATIVE
+// Native replay only: an uninitialised local has whatever the stack held before; paint the stack so that the replay is
+// deterministic about it (CBMC treats an uninitialised local as an arbitrary value, which is what C++ says it is).
+static void __attribute__((noinline)) paint_stack() {
+  volatile unsigned char pad[32768];
+  for (unsigned i = 0; i < sizeof pad; i++) pad[i] = 0xEF;
+}
+#else
+static void paint_stack() {}
+#endif
+// contents are concrete here (only the shape, the length pattern and the cut position are symbolic): they do not matter
+// for truncation, and inputs that do not influence the verdict would be sliced out of the counterexample
+static void fix_str(std::string &s) {
+  int len = pat_len();
+  for (int i = 0; i < LMAX; i++) s._M_local_buf[i] = i < len ? (char)('a' + i) : (char)0;
+  s._M_local_buf[LMAX] = 0;
+  s._M_string_length = (size_t)len;
+}
+#ifndef CUT_LO
+#define CUT_LO 0
+#endif
+#ifndef CUT_HI
+#define CUT_HI 64
+#endif
+// Monitor: std::vector<std::string>::reserve is replaced by this stand-in (catalogue: cut=[...]).  reserve() only
+// changes the capacity, so doing nothing preserves behaviour; the stand-in checks that the requested capacity is a
+// count that can have come from the file (the records of this harness have at most one alt name).
+#ifdef MONITOR_RESERVE
+template<> void std::vector<std::string>::reserve(size_type n) {
+  ASSERT(n <= 4, "C12 the number of alt names passed to reserve() was read from the file (not an uninitialised value)");
+  ASSUME(n <= 4);
+}
+#endif
+
+template<int SHAPE> static void truncate_body() {
+  const int CUT = SHAPE >> 1;
+  if (CUT < CUT_LO || CUT >= CUT_HI) return;
+  as_file_version(3);
+  InterrogateManifest *a = new InterrogateManifest, *b = new InterrogateManifest;
+  fix_str(a->_name);
+  if (SHAPE & 1) { a->_alt_names.emplace_back(); fix_str(a->_alt_names.back()); }
+  a->_flags = 1; a->_int_value = 2; a->_type = 3; a->_getter = 4;
+  fix_str(a->_definition);
+  std::ostream *out = vs_ostream_new();
+  a->output(*out);
+  *out << 5 << ' ';
+  if ((unsigned)CUT + 2 > vs_ntokens(out)) return;          // the cut must remove at least the following integer
+  vs_truncate(out, CUT);
+  std::istream *in = vs_istream_of(out);
+  paint_stack();
+  b->input(*in);
+  int f2 = -1;
+  *in >> f2;
+  ASSERT(in->fail(), "C12 a truncated record leaves the stream in fail state so that the file is rejected");
+  WITNESS();
+}
+#define CUT2(body, c) SHAPE_CASE(body, 2 * (c)) SHAPE_CASE(body, 2 * (c) + 1)
+#define CUT8(body, c) CUT2(body, c) CUT2(body, (c) + 1) CUT2(body, (c) + 2) CUT2(body, (c) + 3) CUT2(body, (c) + 4) CUT2(body, (c) + 5) CUT2(body, (c) + 6) CUT2(body, (c) + 7)
+extern "C" void harness_c12_truncate() {
+  DISPATCH_BEGIN CUT8(truncate_body, 0) CUT8(truncate_body, 8) CUT8(truncate_body, 16) CUT8(truncate_body, 24) DISPATCH_END
 }
